@@ -648,6 +648,11 @@ const c15Rule = "exhaustive: every path over the 15-symbol alphabet {. / \\ % 2 
 
 func TestC15(t *testing.T) {
 	rec := ev.New("C15", c15Rule)
+	defer func() {
+		if !rec.Flush() {
+			t.Fail()
+		}
+	}()
 	rec.Assume("YAML node positions follow yaml.v3: first character of the node including its anchor/tag; a block sequence reports its first '-', a flow sequence its '['",
 		"'+' decodes to a blank (query-component unescaping), as the library documents by using url.QueryUnescape")
 	failed := false
@@ -736,9 +741,6 @@ func TestC15(t *testing.T) {
 	}
 	if n := rec.Count("verdict:accepted") + rec.Count("verdict:rejected"); n >= 200 && (rec.Count("verdict:accepted")*20 < n || rec.Count("verdict:rejected")*20 < n) {
 		ev.HarnessError("C15", "manifest generator starved: accepted=%d rejected=%d", rec.Count("verdict:accepted"), rec.Count("verdict:rejected"))
-		t.Fail()
-	}
-	if !rec.Flush() {
 		t.Fail()
 	}
 }
